@@ -362,7 +362,7 @@ def cmdlineH : Handler := fun inp impl => do
 def handledProtos : List Str := Fabio.Generated.C15.listenProtosHandled.map String.toList
 
 def lerrName : LErr → String
-  | .field k => s!"err-key-{String.ofList k}" | .needAddr => "err-need-addr"
+  | .field k => s!"err-key-{String.ofList k}" | .needAddr => "err-need-addr" | .twoAddrs => "err-two-addresses"
   | .csNeedsTLSProto => "err-cs-needs-tls-proto" | .protoNeedsCs => "err-proto-needs-cs"
 
 def listenH : Handler := fun inp impl => do
@@ -402,31 +402,31 @@ def listenH : Handler := fun inp impl => do
   -- the model: kvslice parse, then the listener rules; `ui.addr` takes exactly one listener, and none when empty
   let isUI := opt == "ui.addr"
   let parsed := parseKVSlice unquote cs
-  let (mout, mlist, mtag, twoAddr) : String × List (Str × Str × Str) × String × Bool := match parsed with
-    | .panic _ => ("panic", [], "model-panic", false)
-    | .ok (.error _) => if isUI && cs.isEmpty then ("cfg", [([], [], [])], "ui-empty", false) else ("err", [], "err-kvslice", false)
+  let (mout, mlist, mtag) : String × List (Str × Str × Str) × String := match parsed with
+    | .panic _ => ("panic", [], "model-panic")
+    | .ok (.error _) => if isUI && cs.isEmpty then ("cfg", [([], [], [])], "ui-empty") else ("err", [], "err-kvslice")
     | .ok (.ok ms) =>
-      let two := ms.any (fun m => (addrKeys m).length > 1)
-      if isUI && cs.isEmpty then ("cfg", [([], [], [])], "ui-empty", false)
-      else if isUI && ms.length != 1 then ("err", [], "err-ui-count", two)
+      if isUI && cs.isEmpty then ("cfg", [([], [], [])], "ui-empty")
+      else if isUI && ms.length != 1 then ("err", [], "err-ui-count")
       else match parseListenersM E ms with
-        | .error e => ("err", [], lerrName e, two)
-        | .ok ls => ("cfg", ls.map (fun l => (l.addr, l.proto, l.cs)), s!"accepted{ls.length}", two)
+        | .error e => ("err", [], lerrName e)
+        | .ok ls => ("cfg", ls.map (fun l => (l.addr, l.proto, l.cs)), s!"accepted{ls.length}")
   let mj := Json.mkObj [("out", mout), ("listen", Json.arr (mlist.map (fun (a, p, c) => Json.arr #[J a, J p, J c])).toArray)]
-  let dropAddr (l : List (Str × Str × Str)) := l.map (fun (_, p, c) => (p, c))
+  -- the same input loaded several times gave the same answer (observed by the harness)
+  let stable := (impl.getObjValAs? Bool "stable").toOption.getD true
   let agree :=
     if out == "panic" then false
     else if outside then true
-    else mout == out && (out != "cfg" || (if twoAddr then dropAddr mlist == dropAddr listen else mlist == listen))
+    else mout == out && (out != "cfg" || mlist == listen)
   -- specification on the implementation's own answer: an accepted listener has an address and a protocol that
   -- `main.startServers` has a case for (case literals regenerated from main.go)
   let runnable := listen.all (fun (a, p, _) => (isUI && cs.isEmpty) || (!a.isEmpty && handledProtos.contains p))
-  let spec := out != "panic" && (out != "cfg" || runnable)
+  let spec := out != "panic" && (out != "cfg" || runnable) && stable
   let tag :=
     if out == "panic" then "panic"
+    else if !stable then "same-input-different-listener"
     else if out == "cfg" && !runnable then "accepted-listener-cannot-be-started"
     else if outside then "outside-unquote-fragment"
-    else if twoAddr then s!"two-address-keys-{mtag}"
     else mtag
   let nontrivial := cs.contains ';' || cs.contains ','
   return ({ model := mj, agree := agree, spec := spec, nontrivial := nontrivial, tag := tag } : Verdict).toJson
